@@ -4,8 +4,10 @@
    Every table in this module is written from the DOCUMENTATION of the library: the "Configuration options" /
    "Config" block of each class docstring first, the option listings in docs/*.md second; never from the
    voluptuous schemas.  Where the two sources contradict each other (or the documentation is silent) the value is
-   classified "skip": the check then only demands that construction either succeeds or fails with a
-   configuration / validation error, and the option is left out of the default check (def = "NOCHECK").
+   classified "skip": nothing is demanded of such a configuration (it is constructed for the evidence only), and an
+   option whose default the sources disagree on is left out of the default check (def = "NOCHECK").
+   Whenever the oracle says "accept" the constructor must succeed, whenever it says "reject" it must raise a
+   configuration / validation error (mitxgraders ConfigError or voluptuous Error); any other exception is a violation.
 
    A configuration is a function  option name -> abstract VALUE KIND  (the adapter owns the map kind -> concrete,
    unambiguous Python value).  The module answers, for a class and a configuration:
@@ -16,7 +18,24 @@
    tables themselves that TLC checks. *)
 EXTENDS Naturals, Sequences, FiniteSets, TLC
 
-(* ====================================================================== value kinds *)
+(* ====================================================================== value kinds
+   concrete values used by the adapter (engine/adapters/c20.py):
+     none None; bool_true/false; int_neg -3, int_zero 0, int_one 1, int_two 2, int_pos 7; float_neg -0.5, float_zero 0.0,
+     float_frac 0.25, float_one 1.0, float_gt1 2.5; complex 1+2j; pct_ok '5%', pct_neg '-5%', str 'abc', str_empty '',
+     str_char ';', str_comma ','; enum_x the string 'x'; callable_1 / callable_3 functions of 1 / 3 arguments;
+     list_xy ['x','y'], list_ab ['a','b'], list_const ['pi'], list_fn ['sin','cos'], list_none1 [None], list_mixed ['x',3],
+     list_int12 [1,2], list_int13 [1,3], list_float2 [0.5,2.5], list_num3 [1,2,3], list_num1 [3], list_callable [f,g],
+     list_graders [StringGrader(), StringGrader()], list_shapes [1,[3,2],2,'square']; tuple_str ('x','y'), tuple_num (1,2.5),
+     tuple_int1 (3,), tuple_int2 (2,3), tuple_int3 (2,3,4); dict_fn_f {'f': f}, dict_fn_sin {'sin': f},
+     dict_fn_rand {'f': RandomFunction()}, dict_fn_list {'f': [f,g]}, dict_const_c {'c': 3.5}, dict_const_x {'x': 3.5},
+     dict_const_pi {'pi': 3.5}, dict_const_del {'pi': None}, dict_const_arr {'A': MathArray([[1,2],[3,4]])}, dict_int_key {1: 3.5}, dict_str_str {'c': 'abc'},
+     dict_sample_x {'x': [1,3]}, dict_range {'start': 2, 'stop': 4}, dict_asm {'is_raised': False, 'msg_detail': 'shape'},
+     dict_asm_part {'is_raised': False}, dict_asm_bad {'is_raised': 'abc'}, dict_asm_unknown {'zz': 1}, dict_quad {'limit': 50};
+     ans_ok the four required keys of a summation / integral answer (ans_missing: one missing, ans_extra: an extra key,
+     ans_nonstr: a number instead of a string); pos_partial {'lower':1,'upper':2,summand:3}, pos_none (variable: None),
+     pos_gap {'lower':1,'upper':3}, pos_repeat {'lower':1,'upper':1}, pos_unknown {'lower':1,'zz':2}; lans_ab ['a','b'];
+     grader_x / sampler_x / credit_obj / comparer_obj default-constructed objects (grader_single uses delimiter ';');
+     matharray MathArray([1., 2.]) *)
 Bools   == {"bool_true", "bool_false"}
 IntsPos == {"int_one", "int_two", "int_pos"}                 \* 1, 2, 7
 IntsNN  == IntsPos \cup {"int_zero"}
@@ -45,7 +64,8 @@ Specific == Enums \cup Callables \cup CallableObjs \cup
              "dict_fn_f", "dict_fn_sin", "dict_fn_rand", "dict_fn_list", "dict_const_c", "dict_const_x", "dict_const_pi",
              "dict_const_del", "dict_str_str", "dict_sample_x", "dict_range", "dict_asm", "dict_asm_part", "dict_asm_bad",
              "dict_asm_unknown", "dict_quad", "ans_ok", "ans_missing", "ans_extra", "ans_nonstr", "pos_partial", "pos_none",
-             "pos_gap", "pos_repeat", "pos_unknown", "lans_ab", "sampler_discrete", "sampler_fn", "sampler_dependent", "matharray"}
+             "pos_gap", "pos_repeat", "pos_unknown", "lans_ab", "sampler_discrete", "sampler_fn", "sampler_dependent", "matharray",
+             "dict_const_arr"}
 Kinds == Generic \cup Specific
 
 (* ====================================================================== option descriptors
@@ -65,7 +85,6 @@ TRange(def)  == O({"list_int12", "list_float2"}, {"dict_range", "dict_empty"}, {
 TRangeD(def) == O({"list_int12", "list_float2", "dict_range"}, {"dict_empty"}, {"list_num3", "list_num1"}, def)
 
 Ext(base, over) == over @@ base                                   \* documented "as per <base>, except ..."
-Only(f, S) == [k \in DOMAIN f \cap S |-> f[k]]
 Without(f, S) == [k \in DOMAIN f \ S |-> f[k]]
 
 (* ---------------------------------------------------------------------- graders *)
@@ -94,7 +113,7 @@ Tolerance(def) == O(IntsNN \cup FNN \cup {"pct_ok"}, {}, {}, def)      \* number
 MathOpts(samplesDef, tolDef) ==
      "user_functions" :> O({"dict_empty", "dict_fn_f", "dict_fn_rand", "dict_fn_list", "dict_fn_sin"}, {},
                            {"dict_const_c", "dict_str_str"}, "dict_empty")
-  @@ "user_constants" :> O({"dict_empty", "dict_const_c", "dict_const_x", "dict_const_pi", "dict_const_del"}, {},
+  @@ "user_constants" :> O({"dict_empty", "dict_const_c", "dict_const_x", "dict_const_pi", "dict_const_del", "dict_const_arr"}, {},
                            {"dict_str_str", "dict_fn_f"}, "dict_empty")
   @@ "blacklist" :> O({"list_empty", "list_fn"}, {"list_xy"}, {"list_none1"}, "list_empty")
   @@ "whitelist" :> O({"list_empty", "list_fn", "list_none1"}, {"list_xy"}, {}, "list_empty")
@@ -142,7 +161,7 @@ SingleListGraderOpts == Ext(ItemGraderOpts,
 
 ListGraderOpts == Ext(AbstractGraderOpts,
      "ordered" :> TBool("False") @@ "partial_credit" :> TBool("True")
-  @@ "subgraders" :> O(GraderKinds \cup {"list_graders"}, {}, {"credit_obj", "comparer_obj"}, "REQUIRED")
+  @@ "subgraders" :> O(GraderKinds \cup {"list_graders"}, {"list_empty"}, {"credit_obj", "comparer_obj"}, "REQUIRED")
   @@ "grouping" :> O({"list_empty", "list_int12"}, {}, {"list_int13"}, "list_empty")
   @@ "answers" :> O({"lans_ab", "list_empty"}, {}, {}, "answers_empty"))
 
